@@ -497,11 +497,12 @@ impl std::io::Read for LazyInput {
     }
 }
 
-fn huge_stream(fmt: u8) -> Result<(), Failure> {
-    let mib = 1usize << 20;
+fn huge_stream(fmt: u8, mib: usize, n_filler: usize) -> Result<(), Failure> {
     let name = if fmt == 0 { "iccma23" } else { "aspartix" };
     let (head, filler, tail): (Vec<u8>, Vec<u8>, Vec<u8>) = if fmt == 0 {
-        let mut c = vec![b'#'; mib - 1];
+        // a comment line whose text, cut anywhere, reads like attack lines
+        let mut c: Vec<u8> = b"#".to_vec();
+        c.extend(b" 2 1".iter().cycle().take(mib - 2));
         c.push(b'\n');
         (b"p af 2\n".to_vec(), c, b"1 2\n".to_vec())
     } else {
@@ -511,7 +512,7 @@ fn huge_stream(fmt: u8) -> Result<(), Failure> {
         c.extend_from_slice(b"a).\n");
         (b"arg(a).\narg(b).\n".to_vec(), c, b"att(a,b).\n".to_vec())
     };
-    let mut input = LazyInput { head, filler, n_filler: 4_100, tail, pos: (0, 0, 0) };
+    let mut input = LazyInput { head, filler, n_filler, tail, pos: (0, 0, 0) };
     let r = guard(move || {
         if fmt == 0 {
             Iccma23Reader::default().read(&mut input).map(|af| (af.n_arguments(), af.n_attacks())).map_err(|e| e.to_string())
@@ -524,7 +525,7 @@ fn huge_stream(fmt: u8) -> Result<(), Failure> {
         Ok(Ok((2, 1))) => Ok(()),
         Ok(other) => Err(Failure::new(
             format!("C13/{}/well-formed-input-above-2^32-bytes-not-read-as-declared", name),
-            format!("4100 filler lines of 1 MiB between the declarations and the attack: reader returned {:?}, expected 2 arguments and 1 attack", other),
+            format!("{} filler lines of {} bytes between the declarations and the attack: reader returned {:?}, expected 2 arguments and 1 attack", n_filler, mib, other),
         )
         .unshrinkable()),
     }
@@ -647,12 +648,19 @@ impl Prop for Readers {
         // replay file; a failure is reported with an empty case and this description.)
         // (the Aspartix reader matches every line against a pattern: 4 GiB take it two minutes, thorough tier only)
         for fmt in 0..(if tier == Tier::Thorough { 2u8 } else { 1u8 }) {
-            if let Err(f) = huge_stream(fmt) {
+            if let Err(f) = huge_stream(fmt, 1 << 20, 4_100) {
                 return Err((ReaderCase { fmt, bytes: vec![] }, f));
             }
             rec.eval();
             rec.class("streamed-input-above-2^32-bytes");
         }
+        // ICCMA only (the Aspartix reader needs minutes for one such line): two comment lines of 2^27 + 12 345 bytes
+        // whose text would read as attacks if a reader handed it on in pieces
+        if let Err(f) = huge_stream(0, (1 << 27) + 12_345, 2).map_err(|f| Failure { signature: f.signature.replace("input-above-2^32-bytes", "input-with-a-line-above-2^27-bytes"), ..f }) {
+            return Err((ReaderCase { fmt: 0, bytes: vec![] }, f));
+        }
+        rec.eval();
+        rec.class("streamed-input-with-a-comment-line-above-2^27-bytes");
         // corpus: a few well-formed and corrupted files from the grammar generators, reader selector byte first
         let strat = prop_oneof![iccma_case(6, 0), apx_case(6, 0), iccma_case(6, 2), apx_case(6, 2)].boxed();
         let seeds: Vec<Vec<u8>> = (0..24)
